@@ -166,7 +166,7 @@ func CheckC14(tier string, seed uint64, rep *core.Reporter) (*core.Evidence, err
 		cases = append(cases, c)
 	}
 
-	cwdModes := []string{"dot", "rel", "relslash", "abs", "absslash"}
+	cwdModes := []string{"dot", "rel", "relslash", "abs", "absslash", "symlink", "symlinkrel"}
 	nSim := 2
 	if tier == "thorough" {
 		nSim = 16
@@ -185,7 +185,7 @@ func CheckC14(tier string, seed uint64, rep *core.Reporter) (*core.Evidence, err
 			cfgs = append(cfgs, simCfg{mode, rng.Uint64() >> 1, cwdModes[rng.Intn(len(cwdModes))]})
 		}
 		perDir[d] = cfgs
-		perDirCwd[d] = [3]string{cwdModes[rng.Intn(5)], cwdModes[rng.Intn(5)], cwdModes[rng.Intn(5)]}
+		perDirCwd[d] = [3]string{cwdModes[rng.Intn(len(cwdModes))], cwdModes[rng.Intn(len(cwdModes))], cwdModes[rng.Intn(len(cwdModes))]}
 	}
 
 	var wg sync.WaitGroup
